@@ -148,7 +148,7 @@ def generate(tier, rng):
     for _ in range(n_c):
         s = rng.random() < 0.5
         n = rng.randint(1 + int(s), 12)
-        f = rng.randint(0, n)
+        f = rng.randint(0, n) if rng.random() < 0.7 else rng.randint(-2, n + 3)
         lo, hi = lims(s, n)
         two = rng.random() < 0.5
         if two:
